@@ -40,7 +40,12 @@ u8* _ZNSolsEi(u8* os, u32 v) { put(os, T_INT, v, 0, 3); return os; }
 u8* _ZN8Pistache4HttplsERSoNS0_4CodeE(u8* os, u32 c) { put(os, T_CODE, c, 0, len_code); return os; }
 /* ------------------------------------------------------------------ typed headers: fake objects with a vtable (name(), write()) */
 #define NHDR 2
-static u64 n_hdr; static u64 len_hdr[NHDR]; static const char* const hdr_names[NHDR] = { "Server", "X-Trace" };
+static u64 n_hdr; static u64 len_hdr[NHDR]; 
+#ifdef HDR_TE   /* the handler declared a transfer coding of its own (say gzip): "chunked" must still be announced, as the final coding */
+static const char* const hdr_names[NHDR] = { "Server", "Transfer-Encoding" };
+#else
+static const char* const hdr_names[NHDR] = { "Server", "X-Trace" };
+#endif
 u8* vp_hdr_name(u8* self);
 void vp_hdr_write(u8* self, u8* os);
 static void* hdr_vt[8] = { 0, 0, (void*)vp_hdr_name, 0, 0, (void*)vp_hdr_write, 0, 0 };   /* slots: 0,1 dtors 2 name 3 parse 4 parseRaw 5 write (checked by the dispatchers) */
@@ -51,6 +56,8 @@ u8* __ir_indirect_ru8p_u8p(u8* fp, u8* a0) { if (fp == (u8*)vp_hdr_name) return 
 void __ir_indirect_rvoid_u8p_u8p(u8* fp, u8* a0, u8* a1) { if (fp == (u8*)vp_hdr_write) { vp_hdr_write(a0, a1); return; } __ir_bad_indirect(); }
 typedef struct { u8* p; u8* c; } sp_t;
 static sp_t hdr_list[NHDR];
+/* lookups by name in the handler's header collection (not used by the code as it is; a change that consults the collection gets the truth) */
+u8 _ZNK8Pistache4Http6Header10Collection3hasERKNSt7__cxx1112basic_stringIcSt11char_traitsIcESaIcEEE(u8* coll, u8* name) { (void)coll; for (u64 i = 0; i < NHDR; i++) if (i < n_hdr && gs_eq_lit(name, hdr_names[i])) return 1; return 0; }
 void _ZNK8Pistache4Http6Header10Collection4listEv(u8* ret, u8* coll) { (void)coll; *(u8**)ret = (u8*)&hdr_list[0]; *(u8**)(ret + 8) = (u8*)&hdr_list[n_hdr]; *(u8**)(ret + 16) = (u8*)&hdr_list[n_hdr]; }
 u8* _ZNSt6vectorISt10shared_ptrIN8Pistache4Http6Header6HeaderEESaIS5_EE5beginEv(u8* v) { return *(u8**)v; }
 u8* _ZNSt6vectorISt10shared_ptrIN8Pistache4Http6Header6HeaderEESaIS5_EE3endEv(u8* v) { return *(u8**)(v + 8); }
